@@ -404,6 +404,17 @@ def augment(prop, lines, seed, budget=40000, mined=None):
     for l in [x for x in lines if x.startswith("from_tokens ")][:1500]:
         for v in from_tokens_variants(l, rng):
             if v not in seen: seen.add(v); out.append(v)
+    # short mutator histories on a start pointer whose tokens are all long (a representation that switches strategy
+    # on the amount of text left — lazy front offsets, inline buffers — is only exercised by long remainders)
+    for l in lines:
+        if l.startswith("buf_hist ") and l.count(" ") <= 5:
+            q = l.split(" ")
+            p0 = _unhex(q[1])
+            if p0 is None or not (0 < len(p0) <= 24): continue
+            k = rng.choice([31, 63, 64, 65, 70, 130] + [m for m in MINED_LENS if m <= 300])
+            q[1] = _hex(b"".join(b"/" + t + b"a" * k for t in p0.split(b"/")[1:]))
+            v = " ".join(q)
+            if v not in seen: seen.add(v); out.append(v)
     for v in wordscale(prop, lines, rng, budget // 3):
         if v not in seen:
             seen.add(v); out.append(v)
